@@ -2567,4 +2567,113 @@ theorem arithTotal_scaled (k : DKind) (hk : k ≠ .int) (scalar : Int) (hs : I32
       | int => exact absurd rfl hk
   · exact (arithTotal_one k hk).2
 
+/-! ## `find_glyph_and_point_count`, `phantom_point_deltas` -/
+
+theorem firstMetrics_facts : ∀ (comps : List (Bool × Nat)) (count : Nat), count + comps.length ≤ MAXU →
+    ∃ c t, firstMetrics comps count = some (c, t) ∧ c ≤ count + comps.length := by
+  intro comps
+  induction comps with
+  | nil => intro count _; exact ⟨count, none, rfl, by simp⟩
+  | cons x r ih =>
+    intro count h
+    obtain ⟨flag, g⟩ := x
+    simp only [List.length_cons] at h
+    unfold firstMetrics
+    rw [uadd_some _ _ (by omega)]
+    simp only []
+    split
+    · exact ⟨count + 1, some g, rfl, by simp only [List.length_cons]; omega⟩
+    · obtain ⟨c, t, hc, hl⟩ := ih (count + 1) (by omega)
+      exact ⟨c, t, hc, by simp only [List.length_cons]; omega⟩
+
+/-- glyph tables whose composite glyphs have at most `B` components -/
+def CompsBounded (glyph : Nat → GR) (B : Nat) : Prop :=
+  ∀ gid comps, glyph gid = .composite comps → comps.length ≤ B
+
+/-- `find_glyph_and_point_count`: at most `66 − depth` nested calls, no panic, a composite answers with
+at most its component count, errors are the glyph's own or the nesting limit -/
+theorem findGlyph_facts (glyph : Nat → GR) (B : Nat) (hB : CompsBounded glyph B) (hBm : B ≤ 4294967296) :
+    ∀ (fuel gid depth : Nat), 65 - depth < fuel →
+      findGlyph glyph fuel gid depth ≠ .trap ∧
+      (∀ e, findGlyph glyph fuel gid depth = .err e → e = .malformed ∨ ∃ g, glyph g = .err e) ∧
+      ∀ g n, findGlyph glyph fuel gid depth = .ok (g, n) →
+        n ≤ B ∨ ∃ k, glyph g = .simple k ∧ n = k := by
+  intro fuel
+  induction fuel with
+  | zero => intro gid depth h; omega
+  | succ f ih =>
+    intro gid depth hf
+    unfold findGlyph
+    by_cases hd : depth > 64
+    · rw [if_pos hd]
+      exact ⟨by simp, fun e he => by injection he with he; exact Or.inl he.symm, by simp⟩
+    · rw [if_neg hd]
+      cases hg : glyph gid with
+      | err e => exact ⟨by simp, fun e' he' => by injection he' with he'; subst he'; exact Or.inr ⟨gid, hg⟩, by simp⟩
+      | none =>
+        refine ⟨by simp, by simp, ?_⟩
+        intro g n h
+        simp only [R.ok.injEq, Prod.mk.injEq] at h
+        exact Or.inl (by omega)
+      | simple k =>
+        refine ⟨by simp, by simp, ?_⟩
+        intro g n h
+        simp only [R.ok.injEq, Prod.mk.injEq] at h
+        exact Or.inr ⟨k, by rw [← h.1]; exact hg, h.2.symm⟩
+      | composite comps =>
+        simp only []
+        have hcl := hB gid comps hg
+        obtain ⟨c, t, hc, hcb⟩ := firstMetrics_facts comps 0 (by unfold MAXU; omega)
+        rw [hc]
+        cases t with
+        | none =>
+          refine ⟨by simp, by simp, ?_⟩
+          intro g n h
+          simp only [R.ok.injEq, Prod.mk.injEq] at h
+          exact Or.inl (by omega)
+        | some g' =>
+          simp only []
+          rw [uadd_some _ _ (by unfold MAXU; omega)]
+          exact ih g' (depth + 1) (by omega)
+
+theorem phantomApply_facts (pc : Nat) (scalar : Int)
+    (hm : ∀ x y, (applyScalarFixed x y scalar).isSome) :
+    ∀ (l : List (Nat × Int × Int)) (ph : List (Int × Int)), ph.length = 4 →
+      ∃ ph', phantomApply pc (pc + 4) scalar l ph = some ph' ∧ ph'.length = 4 := by
+  intro l
+  induction l with
+  | nil => intro ph h; exact ⟨ph, rfl, h⟩
+  | cons a r ih =>
+    intro ph h
+    obtain ⟨ix, x, y⟩ := a
+    unfold phantomApply
+    by_cases hin : pc ≤ ix ∧ ix < pc + 4
+    · rw [if_pos hin]
+      have hlt : ix - pc < ph.length := by omega
+      rw [List.getElem?_eq_getElem hlt]
+      obtain ⟨d, hd⟩ := Option.isSome_iff_exists.mp (hm x y)
+      rw [hd]
+      simp only []
+      exact ih _ (by simp [h])
+    · rw [if_neg hin]
+      exact ih ph h
+
+theorem phantomLoop_facts (p : TVD) (pc : Nat) (l : List (TV × Int))
+    (hdel : ∀ x ∈ l, ∃ evs, x.1.deltasTrace p true = some evs ∧ trapped evs = false)
+    (hm : ∀ x ∈ l, ∀ a b, (applyScalarFixed a b x.2).isSome) :
+    ∀ ph : List (Int × Int), ph.length = 4 →
+      ∃ ph', phantomLoop p pc (pc + 4) l ph = .ok ph' ∧ ph'.length = 4 := by
+  induction l with
+  | nil => intro ph h; exact ⟨ph, rfl, h⟩
+  | cons a r ih =>
+    intro ph h
+    obtain ⟨t, sc⟩ := a
+    unfold phantomLoop
+    obtain ⟨evs, he, ht⟩ := hdel (t, sc) (by simp)
+    rw [he]
+    simp only [ht]
+    obtain ⟨ph1, h1, h2⟩ := phantomApply_facts pc sc (hm (t, sc) (by simp)) (items evs) ph h
+    rw [h1]
+    exact ih (fun x hx => hdel x (by simp [hx])) (fun x hx => hm x (by simp [hx])) ph1 h2
+
 end FontVerif.C01HandVar
